@@ -810,3 +810,47 @@ b('C15', 'clamp_with_if', 'src/core/runner.rs', """        let max_num_threads =
 b('C16', 'transformation_extra_let', 'src/par/par_map.rs', """        ParMapFilter::new(self.iter, self.params, self.map, filter)""", """        let (params, iter, map) = self.destruct();
         let next = ParMapFilter::new(iter, params, map, filter);
         next""")
+
+# ------------------------------------------------------------------------------------------ round 6 generalisations
+m('C05', 'run_map_trailing_spawn_guarded_by_do_spawn', 'src/core/runner.rs', """            handles.push(s.spawn(move || thread_task(chunk)));
+            num_spawned += 1;
+
+            let mut vec = vec![];""", """            if runner.do_spawn(num_spawned, iter.has_more()) {
+                handles.push(s.spawn(move || thread_task(chunk)));
+                num_spawned += 1;
+            }
+
+            let mut vec = vec![];""", 'C05-WORKER')
+m('C03', 'reduce_trailing_spawn_only_if_long', 'src/core/runner.rs', """            threads.push(s.spawn(move || thread_task(chunk)));
+
+            let num_threads = threads.len();""", """            if iter.try_get_len().map(|n| n > chunk).unwrap_or(true) {
+                threads.push(s.spawn(move || thread_task(chunk)));
+            }
+
+            let num_threads = threads.len();""", 'C05-WORKER')
+b('C05', 'run_trailing_spawn_unless_exhausted_and_started', 'src/core/runner.rs', """            s.spawn(move || thread_task(chunk));
+            num_spawned += 1;
+        });""", """            if num_spawned == 0 || !matches!(iter.has_more(), HasMore::No) {
+                s.spawn(move || thread_task(chunk));
+                num_spawned += 1;
+            }
+        });""")
+m('C10', 'flatmap_flat_map_collects_inner', 'src/par/par_flatmap.rs', """            let values = flat_map1(x);
+            values.into_iter().flat_map(flat_map.clone())""", """            let values = flat_map1(x);
+            values.into_iter().flat_map(flat_map.clone()).collect::<Vec<_>>()""", 'C10-LAZYINNER')
+m('C05', 'find_merge_rechecks_filter', 'src/core/map_fil_find.rs', """        |a: Option<(usize, _)>, b| maybe_reduce(|a, b| if b.0 < a.0 { b } else { a }, a, b);""",
+  """        |a: Option<(usize, Out)>, b: Option<(usize, Out)>| maybe_reduce(|a: (usize, Out), b: (usize, Out)| if b.0 < a.0 && filter(&b.1) { b } else { a }, a, b);""", 'C05-MERGE')
+m('C06', 'vec_bridge_from_data', 'src/par/collect_into/vec.rs', """                let mut split = SplitVec::with_doubling_growth_and_fragments_capacity(32);
+                split.extend(self);
+                split.map_into(par_map).to_vec()""", """                let split: SplitVec<O> = self.into();
+                split.map_into(par_map).to_vec()""", 'C06-BRIDGE')
+m('C11', 'kernel_peeks_first_element', 'src/core/map_fil_cnt.rs', """    let task = |c| task(&iter, &map, &filter, c);
+    let reduce = |a, b| a + b;
+    let (_num_spawned, count) = Runner::reduce(params, ParTask::Collect, &iter, &task, reduce);
+
+    count.unwrap_or(0)""", """    let head = iter.next().map(&map).filter(&filter).map(|_| 1).unwrap_or(0);
+    let task = |c| task(&iter, &map, &filter, c);
+    let reduce = |a, b| a + b;
+    let (_num_spawned, count) = Runner::reduce(params, ParTask::Collect, &iter, &task, reduce);
+
+    head + count.unwrap_or(0)""", 'C11-PULL')
